@@ -55,18 +55,24 @@ def run(prop, rep, only=None, verbose=False):
                 broken = None
             except AnalysisBroken as e:
                 fails, broken = [], str(e)
-            hit = [k for k in fails if m["expect"] in k]
-            ok = bool(hit) or (m.get("expect_broken") and broken is not None)
+            if m.get("silent"):
+                # property-preserving edit: the check must stay quiet
+                hit = []
+                ok = not fails and broken is None
+            else:
+                hit = [k for k in fails if m["expect"] in k]
+                ok = bool(hit) or bool(m.get("expect_broken") and broken is not None)
             detected += 1 if ok else 0
             results.append(dict(mutant=m["name"], detected=ok, reported=hit[:3] or fails[:3],
                                 broken=broken))
             if verbose:
-                print("  mutant %-34s %s %s" % (m["name"], "DETECTED" if ok else "MISSED",
+                print("  mutant %-34s %s %s" % (m["name"], ("SILENT-OK" if m.get("silent") else "DETECTED") if ok else "MISSED",
                                                (hit or fails or [broken])[:2]))
             if not ok:
-                raise AnalysisBroken("self-test: mutant %s/%s (%s) was not reported by the "
-                                     "expected rule %s; reported instead: %s %s"
-                                     % (prop, m["name"], m.get("why", ""), m["expect"],
+                raise AnalysisBroken("self-test: mutant %s/%s (%s) %s; reported: %s %s"
+                                     % (prop, m["name"], m.get("why", ""),
+                                        "is property-preserving but raised an alarm" if m.get("silent")
+                                        else "was not reported by the expected rule " + m.get("expect", ""),
                                         fails[:5], broken or ""))
         finally:
             shutil.rmtree(d, ignore_errors=True)
